@@ -125,6 +125,18 @@ let op_t = function
    running list and is mentioned neither in _waiters nor in the hub queue is indistinguishable from one that
    was never seen (Model.get_conn returns new_conn for an absent id), so it counts as UNUSED.
 
+   small (C16): Add(ch, prio 0/1, auto id | client name, default timeout) while < maxjobs jobs were created (an Add under a live
+     name is offered once: push returns the existing job); StartPull(w, [] | [0] | [1]) for every idle used worker and one fresh
+     one; RunLoop; Finish(c, id, result 7) by every idle worker that holds the id and by client 4; Kill(4, [id]); Tick 120 (every
+     job older than the default timeout expires); Disconnect(w) of used workers that are neither dead nor already disconnecting;
+     Choice 1 (2) when >= 2 (3) pullers are blocked and no answer is pending; ONE rejected request (StartPull on the first busy/dead
+     worker -> OBusy; the harness answers those without touching the real code).
+   full (C17/C18) adds: Add with timeout 5; StartPull(w, [0;1]); Finish with error "" and "boom"; Kill by the holder; Tick 6 and
+     Tick 200 instead of Tick 120; Wait(c, id) on one free waiter connection of {5,6} (so up to two clients wait on a job); Stats;
+     Drop [id].
+   Not offered: Disconnect of an unused worker or a second Disconnect of the same worker, Finish/Kill/StartPull on busy connections
+   beyond the one representative, Info/SetInfo/Advance/Watchdog (random histories only).
+
    [sym = true] picks ONE representative among interchangeable fresh things (smallest unused worker id, channel
    0 when no channel occurs in the state, smallest unused client name, first free waiter connection);
    [sym = false] (only used by `enumcheck`) offers all of them.  Everything else is the same in both. *)
@@ -446,6 +458,10 @@ let () =
       ~maxstates:(int_of_string argv.(5)) ~shard:!shard ~budget:!budget ~prefix:!prefix
   end else if argc > 1 && argv.(1) = "enumcheck" then
     enumcheck ~full:(argv.(2) = "full") ~depth:(int_of_string argv.(3)) ~maxjobs:(int_of_string argv.(4))
+  else if argc > 1 && argv.(1) = "bisim" then
+    (* driver.exe bisim <d1> <d2> <maxjobs> <k> <n> : bounded check of C18_restart_bisim on the model, see bisim.ml *)
+    Bisim.run ~d1:(int_of_string argv.(2)) ~d2:(int_of_string argv.(3)) ~maxjobs:(int_of_string argv.(4))
+      ~shard:(int_of_string argv.(5), int_of_string argv.(6)) ~op_t
   else begin
     let st = ref init in
     try while true do
